@@ -694,7 +694,6 @@ func baseName(s string) string {
 	return "other"
 }
 
-
 // entryGuards enumerates the paths of one iteration of the two name loops of the validation function and reports, per
 // rejection class, whether every path that produces an entry (appends one, or merges conditions into an existing one)
 // carries the guard that excludes the defect.
